@@ -523,7 +523,6 @@ func runBeh(t *testing.T, b beh, idx int, seed int64, tr *vlib.Trace) {
 				switch st.A {
 				case "req":
 					sidOfRid[rid] = st.Sid
-					ridOfSid[st.Sid] = rid
 					if st.Sid%2 == 1 && st.Sid > hiSent {
 						hiSent = st.Sid
 					}
@@ -549,6 +548,11 @@ func runBeh(t *testing.T, b beh, idx int, seed int64, tr *vlib.Trace) {
 				synctest.Wait()
 				ent, run := rec.snapshot()
 				frames, closed := cl.take()
+				for _, r := range ent {
+					if s, ok := sidOfRid[r]; ok {
+						ridOfSid[s] = r
+					}
+				}
 				running = sids(run)
 				e["entered"] = sids(ent)
 				e["running"] = running
